@@ -112,6 +112,8 @@ func checkC13(c *Ctx) {
 		"(go.uber.org/zap/zapcore.multiWriteSyncer).Write":   "aggregating writer: decided by R13.2 (min-fold) instead",
 	}
 	writers := c.MethodsNamed("Write", isWriteSig)
+	c.Rule("R13.8", "no Write of the module recovers from a panic of its destination (it would return its results as they stood: a short count with a nil error)", 4)
+	c13NoSwallowedPanic(c, "R13.8", writers)
 	seenExempt := 0
 	for _, fn := range writers {
 		name := FStr(fn)
